@@ -32,6 +32,12 @@ def native_jobs(plans, tier, variant, env, budget):
         j("sched", "C18", "default", "vdev", variant, shards=2, budget_s=budget, env=env),
         j("lower", "C18", "default", "vdev", variant, shards=1, budget_s=budget, env=env),
         j("wrappers", "C18", "default", "vdev", variant, shards=1, budget_s=budget, env=env) if variant == "plain" else None,
+        # the other compile-time geometries under guard pages (histories and the metadata-size grid)
+        j("seq", "C18", "th1", "vdev", variant, shards=1, budget_s=budget, env=env) if variant == "plain" else None,
+        j("seq", "C18", "th8", "vdev", variant, shards=1, budget_s=budget, env=env) if variant == "plain" else None,
+        j("seq", "C18", "16k", "vdev", variant, shards=1, budget_s=budget, env=env) if variant == "plain" else None,
+        j("sizes", "C18", "16k", "vdev", variant, shards=1, budget_s=budget, env=env) if variant == "plain" else None,
+        j("sizes", "C18", "th8", "vdev", variant, shards=1, budget_s=budget, env=env) if variant == "plain" else None,
     ]
 
 
